@@ -1,7 +1,7 @@
 #!/bin/bash
 # re-runs every round-8 seed against its property's quick check (plus listed extras) and records the result in meta.json
 cd "$(dirname "$(readlink -f "$0")")/.."
-for d in seeded/G*; do
+for d in seeded/${ROUND:-G}*; do
   sid=$(basename $d); prop=$(python3 -c "import json;print(json.load(open('$d/meta.json'))['property'])")
   out=$(tools/tryseed.sh $sid $prop 2>&1 | grep "^$sid")
   echo "$out"
